@@ -4,7 +4,7 @@ set -u
 P=$(readlink -f "$1"); ID=$2; TIER=${3:-quick}
 cd /repo || exit 9
 if ! git diff --quiet; then echo "repo dirty, refusing"; exit 9; fi
-git apply "$P" || { echo "patch does not apply"; exit 9; }
+{ git apply "$P" 2>/dev/null || git apply -C1 --recount "$P" 2>/dev/null || patch -p1 -s -F3 --binary < "$P"; } || { echo "patch does not apply"; git checkout -- .; exit 9; }
 trap 'git -C /repo checkout -- .' EXIT INT TERM
 cd /verif
 timeout 3600 python3 bin/check.py "$ID" --tier "$TIER" 2>&1 | grep -v "^\*\*\*\|^Numba\|^\. \|^$\|^https" | tail -${TAIL:-8}
